@@ -101,6 +101,14 @@ func (u *UDP) Send(d []byte) string {
 	}
 }
 
+// Write sends one datagram without waiting for anything. Returns "" or a description of the socket error.
+func (u *UDP) Write(d []byte) string {
+	if _, err := u.client.Write(d); err != nil {
+		return "WRITE " + err.Error()
+	}
+	return ""
+}
+
 // Counters returns the cumulative parser.metrics_received, parser.events_received and parser.bad_lines_seen.
 func (u *UDP) Counters() (metrics, events, bad float64) {
 	var chans []chan time.Duration
